@@ -1,6 +1,6 @@
 SPECIFICATION TSpec
 CONSTANTS
-  CapFactor = 4
+  CapFactor = 2
   TokMin = 65536
   TokMax = 16777216
   ErrCap = 100
